@@ -563,6 +563,12 @@ where
         self.connection.has_streams()
     }
 
+    /// Verification hook: snapshot of the stream store and counters.
+    #[cfg(feature = "verif-hooks")]
+    pub fn verif_snapshot(&self) -> crate::verif::StreamsSnapshot {
+        self.connection.verif_snapshot()
+    }
+
     /// Returns the maximum number of concurrent streams that may be initiated
     /// by the server on this connection.
     ///
